@@ -2,10 +2,10 @@ package main
 
 import (
 	"bytes"
-	"time"
 	"encoding/json"
 	"fmt"
 	"sync"
+	"time"
 
 	"github.com/uber-go/gopatch/patch"
 )
@@ -16,9 +16,9 @@ import (
 type apiSeqCase struct {
 	Patch srcFile   `json:"patch"`
 	Files []srcFile `json:"files"`
-	Seq   []int     `json:"seq"`   // indices into Files, applied in this order on one *patch.File
-	Conc  int       `json:"conc"`  // number of goroutines for the concurrent phase (0 = skip)
-	Reps  int       `json:"reps"`  // calls per goroutine
+	Seq   []int     `json:"seq"`  // indices into Files, applied in this order on one *patch.File
+	Conc  int       `json:"conc"` // number of goroutines for the concurrent phase (0 = skip)
+	Reps  int       `json:"reps"` // calls per goroutine
 }
 
 type apiRes struct {
